@@ -16,7 +16,9 @@ PROPERTY = "C18"
 LEVEL = "fault_enumeration"
 RULE = (
     "For each generated operation (every iterator tool and aggregation with 1-3 suspending sources as "
-    "async generator / class / plain-awaitable class and suspending async callables; tee with a lock; "
+    "async generator / class / plain-awaitable class / class behind a delegating proxy / re-iterable async iterable, "
+    "optionally with value equality between distinct sources, and suspending async callables (async def, callable "
+    "objects, generator-based coroutine functions); tee with a lock; "
     "lru_cache with a suspending function; cached_property with a lock type; ExitStack with 1-3 entered "
     "managers / pushed exits / callbacks; a scoped_iter block using several tools; groupby with partly "
     "consumed groups) a cancellation-free "
@@ -54,7 +56,7 @@ def tool_cases(draw, name, tier):
         case["params"]["outer"]["fl"] = draw(st.sampled_from(["agen", "aclass"]))
         case["params"]["outer"]["susp"] = 1
     for spec in case["fns"].values():
-        spec["fl"] = draw(st.sampled_from(["async", "obj", "objaw"]))
+        spec["fl"] = draw(st.sampled_from(["async", "obj", "objaw", "gencoro"]))
         spec["susp"] = 1
     case["mode"] = draw(st.sampled_from(["hooks", "bare"]))
     return case
